@@ -102,6 +102,21 @@ def run_lattice(case) -> dict:
                         break
             if viol:
                 break
+        if viol is None:
+            # requested indexes outside 0..31 (a key identifier field is 32 bits wide): not covered by anything, must be reported as
+            # an error at once
+            for l1, l2 in ((l1p, 32), (0, 40), (32, 0), (l1p, 2**31), (0xFFFFFFFF, 5), (31, 63), (max(l1p - 1, 0), 33)):
+                kid = KeyIdentifier(version=1, flags=0, l0=L0, l1=l1, l2=l2, root_key_identifier=rk.root_key_id, key_info=nonce,
+                                    domain_name="domain.test", forest_name="domain.test")
+                kb.count, kb.limit = 0, 300
+                out = drive.classify(lambda: env.get_kek(kid))
+                evals += 1
+                probes["index_out_of_range"] = probes.get("index_out_of_range", 0) + 1
+                if out.kind != "raise":
+                    et, frame = drive.exc_sig(out)
+                    viol = common.violation("C02", "non-covering", source, "returned-a-key" if out.kind == "ok" else out.kind, frame, "index-out-of-range",
+                                            f"seed material at ({l1p},{l2p}), requested position ({l1},{l2}) does not exist, but get_kek {out.brief()}")
+                    break
     if edges:
         probes["root_key_with_odd_edge_bytes"] = 1
     return {"viol": viol, "digest": hashlib.sha256(repr((case, evals)).encode()).hexdigest()[:12], "keys": [common.key_hash(k) for k in keys], "evals": evals,
@@ -363,7 +378,7 @@ class C02(common.Check):
     rule = ("cases: (a) lattice - an envelope for (L1',L2') obtained from the reference DC through the real RPC client in each shape the spec "
             "allows (L1 key for L1' at L2'=31 else L1'-1, absent at L1'=0; L2 key present/omitted at L2'=31), or built by the cache from a root "
             "key, then get_kek for every covered (L1,L2) compared with the independent MS-GKDI chain and a sample of non-covered positions "
-            "that must raise within 300 KDF calls; thorough: all 1024 (L1',L2') x 2 shapes for SHA512 (= the full 32x32 x 32x32 lattice) and a "
+            "that must raise within 300 KDF calls, plus requested indexes outside 0..31; a sample of these in a child interpreter with assertions compiled out; thorough: all 1024 (L1',L2') x 2 shapes for SHA512 (= the full 32x32 x 32x32 lattice) and a "
             "1/8 sample for the other hashes; quick: 48 (L1',L2') per hash biased to branch corners; (b) API histories [online unprotect at p' / "
             "load_key -> DC unreachable -> unprotect blobs at p, with a cache-served protect and / or a later load_key of the root key in between]; "
             "(b') cache-served protects (root key loaded, or seed from the DC) under a wall clock that moves with every reading while an L0/L1/L2 boundary passes: the reference must open the blob at the position it is labelled with; "
@@ -376,7 +391,7 @@ class C02(common.Check):
                   "transport": "simulated; 'DC unreachable' = partition"}
     assumptions = ["the lattice sweep is enumeration of workload parameters through a two-step simulated history; simulation-specific: envelope via RPC, partition, Byzantine reply"]
     required_fired = ("cover_same", "cover_same-l1", "cover_l1-1", "cover_lower", "noncover", "shape_l2_omitted", "shape_l1_absent", "history_cover",
-                      "history_noncover", "history_protect_from_seed", "history_root_key_loaded_later", "thread_cases", "thread_overlap", "byzantine_reply", "root_key_reloaded_with_other_parameters", "root_key_with_odd_edge_bytes", "clock_histories", "clock_boundary_passed_before_key_id")
+                      "history_noncover", "history_protect_from_seed", "history_root_key_loaded_later", "thread_cases", "thread_overlap", "byzantine_reply", "root_key_reloaded_with_other_parameters", "root_key_with_odd_edge_bytes", "clock_histories", "clock_boundary_passed_before_key_id", "index_out_of_range", "lattice_with_assertions_compiled_out")
 
     def exhaustive(self, tier):
         return tier == "thorough"
@@ -401,6 +416,9 @@ class C02(common.Check):
             for edges in ([0x20, 0x0A], [0x09, 0x41], [0x42, 0x0D], [0x00, 0x00], [0x0B, 0x0C]):
                 out.append(["lattice", h, "rootkey", 31, 31, 0, edges])
                 out.append(["lattice", h, "dc", 7, 31 if edges[0] % 2 else 9, 0, edges])
+        # a sample of the lattice in a child interpreter started with assertions compiled out (PYTHONOPTIMIZE=1)
+        for k, c in enumerate([c for c in out if c[2] == "rootkey" and len(c) == 6][:4] + [c for c in out if c[2] == "dc" and len(c) == 6][:: max(1, len(out) // (12 if tier == "quick" else 200))]):
+            out.append(["optimized", c])
         n_hist = 1200 if tier == "quick" else 40000
         for i in range(n_hist):
             out.append(gen_history(rng, i))
@@ -420,6 +438,11 @@ class C02(common.Check):
     def run_case(self, case):
         if isinstance(case, list) and case[0] == "threads":
             return run_threads(case)
+        if isinstance(case, list) and case[0] == "optimized":
+            v = common.run_case_fresh("C02", case[1], env={"PYTHONOPTIMIZE": "1"})
+            if v:
+                v = {"sig": v["sig"] + "/python-O", "detail": "interpreter with assertions compiled out (PYTHONOPTIMIZE=1): " + v["detail"]}
+            return {"viol": v, "digest": "opt:" + (v["sig"] if v else "ok"), "key": common.key_hash(case), "fired": {}, "probes": {"lattice_with_assertions_compiled_out": 1}, "vtime_ns": 0}
         if isinstance(case, list):
             return run_lattice(case)
         if case.get("kind") == "clock":
@@ -431,6 +454,8 @@ class C02(common.Check):
             from checks import threadpure
 
             yield from threadpure.shrinks(case, 3, 2, run_threads)
+            return
+        if isinstance(case, list) and case[0] == "optimized":
             return
         if isinstance(case, dict):
             yield from P.thread_shrinks(case)
@@ -445,6 +470,8 @@ class C02(common.Check):
     def sample_repr(self, case, res):
         if isinstance(case, list) and case[0] == "threads":
             return dict(zip(("kind", "seed", "n_threads", "policy"), case))
+        if isinstance(case, list) and case[0] == "optimized":
+            return {"kind": "lattice case in a child interpreter with PYTHONOPTIMIZE=1", "case": case[1]}
         if isinstance(case, list):
             return dict(zip(("kind", "hash", "seed_source", "l1'", "l2'", "l2_key_omitted", "root_key_first_last_byte"), case))
         return {"kind": case["kind"], "seed_position": case.get("seedpos"), "byz": case["dc"].get("byz"),
